@@ -376,7 +376,22 @@ Inductive op :=
 | Mutate (h : nat) (mu : mutation)
   (** the entry under [k] disappears (expiry, eviction) *)
 | Drop (k : N)
-| Flush.
+| Flush
+  (** writeDump (GET /dump, Close, the periodic dump): every stored message is
+      read (packed); nothing the cache keeps may change *)
+| Dump
+  (** readDump (dump_file at start-up, POST /load_dump): for every entry of the
+      dump, in order, "resp := new(dns.Msg); resp.Unpack(...)" builds a message
+      of its own and the backend stores it under the entry's key. [l] is the
+      list of (key, value of the unpacked message). Dumps are written from
+      stored messages, which carry no OPT in the additional section
+      (cached_has_no_opt): [strip_opt] is the identity on them. *)
+| Load (l : list (N * mval)).
+
+(** One entry of a dump: a new message in the cache's region, stored under its key. *)
+Definition load_one (s : state) (e : N * mval) : state :=
+  let '(H1, c) := new_msg O (hp s) (strip_opt (snd e)) in
+  mkst H1 ((fst e, c) :: cache s) (handles s) (served s).
 
 Definition step (s : state) (o : op) : state :=
   match o with
@@ -418,6 +433,8 @@ Definition step (s : state) (o : op) : state :=
     end
   | Drop k => mkst (hp s) (remove k (cache s)) (handles s) (served s)
   | Flush => mkst (hp s) [] (handles s) (served s)
+  | Dump => s
+  | Load l => fold_left load_one l s
   end.
 
 Definition run_from (s : state) (ops : list op) : state := fold_left step ops s.
@@ -426,6 +443,14 @@ Definition run (ops : list op) : state := run_from init ops.
 (** What the cache would serve for [k], as a value. *)
 Definition cache_val (s : state) (k : N) : option mval :=
   option_map (value (hp s)) (lookup k (cache s)).
+
+(** What a dump taken now holds for the keys [keys]. *)
+Definition dump_of (s : state) (keys : list N) : list (N * mval) :=
+  flat_map (fun k => match cache_val s k with Some v => [(k, v)] | None => [] end) keys.
+
+(** What a key maps to after loading [l] over [old]: the last entry for it wins. *)
+Definition loaded (k : N) (l : list (N * mval)) (old : option mval) : option mval :=
+  fold_left (fun acc e => if k =? fst e then Some (strip_opt (snd e)) else acc) l old.
 
 (** The region (client) an operation acts for; 0 for the cache's own steps. *)
 Definition owner (s : state) (m : nat) : nat := own (hm (hp s)) m.
